@@ -46,6 +46,7 @@ fn main() {
             Some("c14") => gen_dec::gen_c14(&mut out, seed, thorough),
             Some("c17") => gen_c17::gen(&mut out, seed, thorough),
             Some(w @ ("c03" | "c09" | "c05r")) => gen_rs::gen(&mut out, w, seed, thorough),
+            Some("c04") => gen_dec::gen_c04(&mut out, seed, thorough),
             Some("c15") => gen_dec::gen_c15(&mut out, seed, thorough),
             Some("c08") => gen_c08::gen(&mut out, seed, thorough),
             Some("c07") => gen_c07::gen(&mut out, seed, thorough),
